@@ -113,6 +113,7 @@ def check(ctx):
     ctx.rule("R03.4", "empty and one-box arrows/diagrams print as the identity / the box, so repr-based hashes of equal values agree")
     arrow, ob = m.cls(CAT + ".Arrow"), m.cls(CAT + ".Ob")
     exc = m.cls(CAT + ".AxiomError")
+    n_order = n_guard = 0
     for c in classes_in_scope(m):
         if not (arrow in m.mro(c) or ob in m.mro(c)):
             continue
@@ -143,6 +144,7 @@ def check(ctx):
             if want and not exprs:
                 ctx.ob("R03.1", c.q + ".__eq__:wrapping-branch", False, found="no branch for arrows/diagrams wrapping the box", required=want[0], mod=c.mod, node=efn,
                        sig="eq-branch-missing")
+            n_guard += check_eq_guards(ctx, m, c, efn)
             consts = [b for b in br if b[1] == "const"]
             ctx.ob("R03.1", c.q + ".__eq__:otherwise", all(b[2] is False for b in consts), found=[(b[0], b[2]) for b in consts],
                    required="unrelated values compare unequal (False)", mod=c.mod, node=efn, sig="eq-otherwise", trivial=True)
@@ -197,8 +199,11 @@ def check(ctx):
                required="every parameter path __eq__ depends on is printed", mod=ro.mod, node=rfn, sig="eq-subset-repr:" + ",".join(missing))
         if "__repr__" in c.methods:
             check_repr_syntax(ctx, m, c, rfn)
+            n_order += check_repr_order(ctx, m, c, rfn)
             check_repr_omissions(ctx, m, c, rfn)
         check_normalised_access(ctx, m, c)
+    ctx.need(n_guard >= 10, "fewer than 10 comparisons of __eq__ read fields of the other value (%d)" % n_guard)
+    ctx.need(n_order >= 8, "fewer than 8 printed constructor arguments could be traced to their parameter (%d)" % n_order)
     check_one_box(ctx, m)
     check_total_order(ctx, m)
     ns = check_returns_str(ctx, m)
@@ -245,6 +250,144 @@ def check_repr_syntax(ctx, m, c, rfn):
             bad = sorted(kws - params)
             ctx.ob("R03.3", "%s.__repr__:keywords" % c.q, not bad, found="keywords %s in %r" % (sorted(kws), s), required="parameters of %s.__init__: %s" % (c.name, sorted(params)),
                    mod=c.mod, node=r, sig="repr-kw:" + ",".join(bad), trivial=not kws)
+    return n
+
+
+def check_eq_guards(ctx, m, c, efn):
+    """R03.1: __eq__ reads a field of `other` only where `other` is known to be of (a class related to) the class: a comparison reached by values of another class
+    either fails (AttributeError) or ignores the fields the class adds (a Bubble compared as a plain box: two bubbles with different insides equal)"""
+    self_, other = efn.args.args[0].arg, efn.args.args[1].arg
+
+    def facts(test, pol, acc):
+        if isinstance(test, ast.UnaryOp) and isinstance(test.op, ast.Not):
+            return facts(test.operand, not pol, acc)
+        if isinstance(test, ast.BoolOp) and ((isinstance(test.op, ast.And) and pol) or (isinstance(test.op, ast.Or) and not pol)):
+            for v in test.values:
+                facts(v, pol, acc)
+            return acc
+        if isinstance(test, ast.Call) and ast.unparse(test.func) == "isinstance" and len(test.args) == 2 and ast.unparse(test.args[0]) == other:
+            ks = test.args[1].elts if isinstance(test.args[1], ast.Tuple) else [test.args[1]]
+            acc.append((pol, [ast.unparse(k) for k in ks]))
+        return acc
+
+    def reads_other(e):
+        return any((isinstance(n, (ast.Attribute, ast.Subscript)) and isinstance(n.value, ast.Name) and n.value.id == other) or
+                   (isinstance(n, ast.Call) and ast.unparse(n.func) in ("len", "getattr") and n.args and ast.unparse(n.args[0]) == other) for n in ast.walk(e))
+
+    out = []
+
+    def walk(body, known):
+        known = list(known)
+        for st in body:
+            if isinstance(st, ast.If):
+                walk(st.body, known + facts(st.test, True, []))
+                if st.orelse:
+                    walk(st.orelse, known + facts(st.test, False, []))
+                ends = lambda b: bool(b) and isinstance(b[-1], (ast.Return, ast.Raise))
+                if ends(st.body) and not st.orelse:
+                    known += facts(st.test, False, [])           # fall-through: the test was false
+                elif st.orelse and ends(st.orelse) and not ends(st.body):
+                    known += facts(st.test, True, [])
+            elif isinstance(st, ast.Return) and st.value is not None:
+                e = st.value
+                local = list(known)
+                if isinstance(e, ast.BoolOp) and isinstance(e.op, ast.And):      # isinstance(other, K) and <fields>: the conjuncts to the right are guarded
+                    facts(e, True, local)
+                out.append((st, local, reads_other(e)))
+    walk(efn.body, [])
+    n = 0
+    for st, known, reads in out:
+        if not reads:
+            continue
+        pos = [k for pol, ks in known if pol for k in ks]
+        rel = []
+        for k in pos:
+            K = m.resolve_class(c.mod, k)
+            if K is not None and (K is c or K in m.mro(c) or c in m.mro(K)):
+                rel.append(k)
+        n += 1
+        ctx.ob("R03.1", "%s.__eq__:guard[%s]" % (c.q, ast.unparse(st.value)[:40]), bool(rel), found="reached when `%s` is %s" % (other, " and ".join(
+            ("an instance of %s" % "/".join(ks)) if pol else ("not an instance of %s" % "/".join(ks)) for pol, ks in known) or "anything"),
+            required="fields of `%s` are compared only after isinstance(%s, <the class or a class it is compared with>) holds" % (other, other), mod=c.mod, node=st, sig="eq-guard")
+    return n
+
+
+def check_repr_order(ctx, m, c, rfn):
+    """the constructor expression printed by __repr__ passes each stored parameter back in ITS OWN place: a field that is a plain copy of the parameter p of __init__
+    is printed in the positional slot of p (or as `p=`).  Decided for the slots filled by repr(self.x) / self.x of the top-level format string; other slots are not judged."""
+    import re
+    from ..prov import init_prov
+    init = m.lookup(c, "__init__")
+    if not (init and isinstance(init[1], ast.FunctionDef)):
+        return 0
+    params = [x.arg for x in init[1].args.args[1:]]
+    try:
+        attrs = init_prov(m, c)
+    except Exception:
+        return 0
+    self_ = rfn.args.args[0].arg
+    n = 0
+    sites = [(s, s.value, False) for s in ast.walk(rfn) if isinstance(s, ast.Return)]
+    if any(isinstance(s.value, ast.Attribute) and s.value.attr in ("name", "_name") for s, _, _ in sites) and "__init__" in c.methods:
+        # the repr is the name computed by the constructor: the format calls of __init__ are read with the parameters themselves as arguments
+        sites += [(x, x, True) for x in ast.walk(init[1]) if isinstance(x, ast.Call) and isinstance(x.func, ast.Attribute) and x.func.attr == "format"]
+    for r, e, in_init in sites:
+        if not (isinstance(e, ast.Call) and isinstance(e.func, ast.Attribute) and e.func.attr == "format" and isinstance(e.func.value, ast.Constant) and isinstance(e.func.value.value, str)):
+            continue
+        tmpl = e.func.value.value
+        head = re.match(r"^([A-Za-z_][A-Za-z_0-9.]*)\(", tmpl)
+        k = m.resolve_class(c.mod, head.group(1)) if head else None
+        if k is not c or any(isinstance(a, ast.Starred) for a in e.args) or e.keywords:
+            continue
+        # walk the template: which constructor argument each `{}` at bracket depth 1 stands for
+        depth, pos, slot, since = 0, 0, 0, ""
+        slots = {}
+        i = len(head.group(0)) - 1
+        while i < len(tmpl):
+            ch = tmpl[i]
+            if tmpl.startswith("{}", i):
+                if depth == 1:
+                    kw = re.match(r"^\s*([A-Za-z_][A-Za-z_0-9]*)=$", since)
+                    slots[slot] = kw.group(1) if kw else (pos if since.strip() == "" else None)
+                slot += 1
+                since += "{}"
+                i += 2
+                continue
+            if ch in "([":
+                depth += 1
+                if depth == 1:
+                    since = ""
+                    i += 1
+                    continue
+            elif ch in ")]":
+                depth -= 1
+            elif ch == "," and depth == 1:
+                pos += 1
+                since = ""
+                i += 1
+                continue
+            since += ch
+            i += 1
+        for j, a in enumerate(e.args):
+            want = slots.get(j)
+            if want is None:
+                continue
+            x = a.args[0] if isinstance(a, ast.Call) and ast.unparse(a.func) in ("repr", "str") and len(a.args) == 1 else a
+            if in_init:
+                if not (isinstance(x, ast.Name) and x.id in params):
+                    continue
+                src, shown = ("param", x.id), x.id
+            else:
+                if not (isinstance(x, ast.Attribute) and isinstance(x.value, ast.Name) and x.value.id == self_):
+                    continue
+                src, shown = attrs.get(canon_attr(m, c, x.attr)), "self." + x.attr
+            if not (isinstance(src, tuple) and src and src[0] == "param"):
+                continue                    # a computed field: which argument rebuilds it is not a matter of position
+            expected = want if isinstance(want, str) else (params[want] if want < len(params) else None)
+            n += 1
+            ctx.ob("R03.3", "%s.__repr__:argument[%s]" % (c.q, want), src[1] == expected, found="%s (the parameter `%s` of __init__) is printed as %s" % (
+                shown, src[1], "`%s=`" % want if isinstance(want, str) else "positional argument %d (`%s`)" % (want + 1, expected)), required="every stored parameter is printed in its own place, so that "
+                "evaluating the repr rebuilds the value", mod=c.mod, node=r, sig="repr-order:%s" % shown)
     return n
 
 
